@@ -1,10 +1,10 @@
 """C04 — STOPGAP <-> cryoCAT conversion is a lossless renaming with parity half-sets (DESIGN.md section 4, C04)."""
-import os, ast, math, tempfile, warnings
+import os, ast, math, tempfile, warnings, traceback
 import core
 from core import f2b, b2f
 
 PROP = "C04"
-COUNT = {"quick": 150, "thorough": 3000, "search": 600}
+COUNT = {"quick": 150, "thorough": 2400, "search": 600}
 PARALLEL = True
 
 MOTL_COLS = ["score", "geom1", "geom2", "subtomo_id", "tomo_id", "object_id", "subtomo_mean", "x", "y", "z",
@@ -20,28 +20,123 @@ MAXABS = 1e15
 ID_COLS = ["subtomo_id", "tomo_id", "object_id", "class"]
 
 RULE = ("export cases: particle lists of N in 1..300 particles (quick: mostly <=40), the 20 fields drawn from realistic values (integer/fractional "
-        "coordinates, shifts incl. exact .5 ties, angles, scores with many decimals) and arbitrary finite values |v|<1e15 (gauss*10^k, k in -8..14, +-0), "
-        "non-sequential non-negative subtomogram numbers (random, repeated, large, 0), id columns as float64 or int64, DataFrame columns in canonical or "
-        "shuffled order, row index default / filtered (gaps) / shuffled labels / offset, x reset_index x update_coord; each case is run in memory "
-        "(StopgapMotl.convert_to_sg_motl), via file (StopgapMotl(df).write_out -> own STAR parser -> StopgapMotl(path)) and through emmotl2stopgap. "
-        "import cases: STOPGAP tables with the 16 columns in any order (sometimes one extra column; rarely one of the 14 columns missing -> KeyError "
-        "expected), through StopgapMotl(sg_df) and stopgap2emmotl(sg_df). non-trivial = N>=2 and (export: subtomogram numbers of both parities, not "
-        "equal to 1..N, at least 10 distinct values among the 14 shared fields of a particle; import: column order != documented order); "
+        "coordinates, shifts incl. exact .5 ties, angles, scores with many decimals, values printed in exponent form) and arbitrary finite values |v|<1e15 "
+        "(gauss*10^k, k in -8..14, +-0), non-sequential subtomogram numbers (random, repeated, large, 0; shares with negative numbers, numbers beyond 2^53 "
+        "and non-integral numbers), id columns as float64 or int64, DataFrame columns in canonical or shuffled order, row index default / filtered (gaps) / "
+        "shuffled labels / offset, x reset_index in {omitted, False, True} x update_coord in {omitted, False, True} (an omitted keyword exercises the "
+        "library default, ~30 % each); each step is run in memory (StopgapMotl.convert_to_sg_motl), via file (StopgapMotl(df).write_out -> own STAR parser "
+        "-> StopgapMotl(path)) and through emmotl2stopgap, all three on the SAME caller-owned DataFrame object, which is compared before/after every call. "
+        "~32 % of the export cases have a second step in the same process: a different list (other count) written to and loaded from the SAME two paths, "
+        "or the caller's frame edited in place and converted / written again; the second step is judged exactly like the first. "
+        "import cases: STOPGAP tables with the 16 columns in any order and row index default / filtered / shuffled / offset (sometimes one extra column; "
+        "rarely one of the 14 columns missing -> KeyError expected; rarely a text cell in a numeric column -> the model must reject, nothing is demanded), "
+        "through StopgapMotl(sg_df) and stopgap2emmotl(sg_df) on the same frame object. non-trivial = N>=2 and (export: subtomogram numbers of both "
+        "parities, not equal to 1..N, at least 10 distinct values among the 14 shared fields of a particle; import: column order != documented order); "
         "distinct = distinct case content")
 ASSUMPTIONS = [
-    "STAR layer (Starfile.write/read) round-trips a well-formed table, numbers to 6 decimals (property C02; parameter `StarRoundTrip` of theorem via_file); "
-    "observed each run: every written file is parsed by the harness's own tokenizer and re-read by StopgapMotl(path)",
+    "STAR layer: theorem via_file_c02 derives the file round trip from C02's typed_roundtrip for the C02 model of Starfile.write/read; what stays outside the "
+    "proof is value -> printed digits (DataFrame.round(6) + repr) and digits -> value (pandas.to_numeric), observed each run: every written file is parsed by the "
+    "harness's own tokenizer and re-read by StopgapMotl(path), compared at 5e-7 + 16 ulp",
     "pandas: `df[col] = ndarray` assigns by position, `df[col] = Series` aligns on index labels; `Series.mod(2).eq(0)` is numpy floored modulo "
-    "(driver: x - 2*floor(x/2) == 0, exact for finite float64)",
-    "decimal.Decimal(x).to_integral_value(ROUND_HALF_UP) on a float64 = C round() (half away from zero) = Lean Float.round (compared bit-exactly each run)",
+    "(model: x - 2*floor(x/2) == 0, exact for finite float64); the verified checker does not use it: it decodes the IEEE bit pattern to an integer exactly "
+    "(decodeInt) and the driver cross-checks decoding and float parity against the hardware float for every subtomogram number of every case",
+    "decimal.Decimal(x).to_integral_value(ROUND_HALF_UP) on a float64 = C round() (half away from zero) = Lean Float.round (compared bit-exactly each run; "
+    "the update_coord clauses are also evaluated directly with exact rational arithmetic)",
     "numpy float64 +,- = IEEE binary64 = Lean Float (compared bit-exactly in update_coordinates)",
     "pandas.to_numeric parses decimal text to within a few ulp (not correctly rounded; 3 ulp seen at |v|~2e12): the via-file tolerance is 5e-7 + 16 ulp",
-    "field values are finite with |v| < 1e15 (DataFrame.round(6) overflows to inf above 1.8e302; not generated)",
+    "field values are finite with |v| < 1e15 (subtomogram numbers up to 2^62) (DataFrame.round(6) overflows to inf above 1.8e302; not generated)",
+    "a subtomogram number that is no integer is neither even nor odd: its half-set is compared with the model only (corr), never reported as a violated clause",
 ]
-TRUSTED = ["harness STAR tokenizer for the written file (props/c04.py parse_star)", "AST extraction in props/c04.py translate()"]
+TRUSTED = ["harness STAR tokenizer for the written file (props/c04.py parse_star; cross-checked on every written file of up to ~100 particles against the proved Lean reader starRead = C02 model)", "AST extraction in props/c04.py translate()",
+           "exact decoding of binary64 bit patterns (Model/C04.decodeInt; cross-checked against the hardware float at run time)"]
 
 
 # ------------------------------------------------------------------------------------------ translator
+import copy, hashlib
+
+
+def _canon(fn):
+    """copy of a FunctionDef with the docstring dropped and every parameter / local name replaced by a positional placeholder
+    (`a0, a1, ...` for parameters other than self/cls, `v0, v1, ...` for names bound in the body, in order of first binding):
+    the result is insensitive to renaming of local variables and sensitive to every change of structure."""
+    fn = copy.deepcopy(fn)
+    if fn.body and isinstance(fn.body[0], ast.Expr) and isinstance(fn.body[0].value, ast.Constant) and isinstance(fn.body[0].value.value, str):
+        fn.body = fn.body[1:] or [ast.Pass()]
+    names = {}
+    params = [a for a in fn.args.posonlyargs + fn.args.args + fn.args.kwonlyargs] + [a for a in (fn.args.vararg, fn.args.kwarg) if a]
+    k = 0
+    for a in params:
+        if a.arg in ("self", "cls"):
+            continue
+        names[a.arg] = f"a{k}"; k += 1
+
+    class Bind(ast.NodeVisitor):
+        def __init__(self):
+            self.n = 0
+        def bind(self, name):
+            if name not in names and name not in ("self", "cls"):
+                names[name] = f"v{self.n}"; self.n += 1
+        def visit_Name(self, node):
+            if isinstance(node.ctx, ast.Store):
+                self.bind(node.id)
+        def visit_FunctionDef(self, node):
+            if node is not fn:
+                self.bind(node.name)
+                for a in node.args.posonlyargs + node.args.args + node.args.kwonlyargs:
+                    self.bind(a.arg)
+            self.generic_visit(node)
+        def visit_Assign(self, node):       # value first is evaluation order, but binding order = textual order of targets
+            for t in node.targets:
+                self.visit(t)
+            self.visit(node.value)
+
+    Bind().visit(fn)
+
+    class Ren(ast.NodeTransformer):
+        def visit_Name(self, node):
+            if node.id in names:
+                node.id = names[node.id]
+            return node
+        def visit_arg(self, node):
+            if node.arg in names:
+                node.arg = names[node.arg]
+            return node
+        def visit_FunctionDef(self, node):
+            if node is not fn and node.name in names:
+                node.name = names[node.name]
+            self.generic_visit(node)
+            return node
+
+    Ren().visit(fn)
+    return fn
+
+
+def _dump(fn):
+    """normalised text of a canonical function: defaults of the signature + statements (no blanks)"""
+    sig = ",".join(ast.unparse(d) for d in fn.args.defaults + [d for d in fn.args.kw_defaults if d is not None])
+    return (f"defaults({sig});" + ";".join(ast.unparse(st) for st in fn.body)).replace(" ", "").replace("\n", ";")
+
+
+def _sig_default(src, rel, qual, name):
+    fn = src.find(rel, qual)
+    names = [a.arg for a in fn.args.args]
+    defaults = dict(zip(names[len(names) - len(fn.args.defaults):], fn.args.defaults))
+    for a, d in zip(fn.args.kwonlyargs, fn.args.kw_defaults):
+        if d is not None:
+            defaults[a.arg] = d
+    if name not in defaults:
+        raise core.AnchorMissing(f"{qual}({name}=<const>)")
+    return src.literal(defaults[name])
+
+
+BODY_FUNCS = ["StopgapMotl.__init__", "StopgapMotl.read_in", "StopgapMotl.convert_to_motl", "StopgapMotl.convert_to_sg_motl",
+              "StopgapMotl.sg_df_reset_index", "StopgapMotl.write_out", "stopgap2emmotl", "emmotl2stopgap"]
+# digests of the reviewed bodies (documented fallback; the Lean side holds its own hand-written copy in Model/C04.docBodyDigests)
+DOC_DIGESTS = {'StopgapMotl.__init__': 'd7fb346f05eaacb5', 'StopgapMotl.read_in': 'e08d7b6f24613301', 'StopgapMotl.convert_to_motl': '41bddc0a26f2ac2c', 'StopgapMotl.convert_to_sg_motl': '35c4d762c513372b', 'StopgapMotl.sg_df_reset_index': 'a328d3752cd8e76f', 'StopgapMotl.write_out': '6150d53d35833acb', 'stopgap2emmotl': 'b93283c9d4d67905', 'emmotl2stopgap': '43955f188247229d'}
+DOC_DEFAULTS = {"conv_reset": False, "sg_reset": False, "write_update": False, "write_reset": False, "em2sg_update": False,
+                "em2sg_reset": False, "sg2em_update": False, "keep_halfsets": False}
+
+
 def _is_sub(node, base, key=None):
     """node is `base[<key>]` (key: Name id or constant string; None = anything)"""
     if not (isinstance(node, ast.Subscript) and isinstance(node.value, (ast.Name, ast.Attribute)) and ast.unparse(node.value) == base):
@@ -72,112 +167,152 @@ def _pairs_loop(fn):
     raise core.AnchorMissing("loop over StopgapMotl.pairs.items() with a single assignment")
 
 
+def _frame_var(fn):
+    """the local that holds `pd.DataFrame(data=np.zeros((<arg0>.shape[0], W)), columns=StopgapMotl.columns)` -> (name, W)"""
+    for st in fn.body:
+        if isinstance(st, ast.Assign) and len(st.targets) == 1 and isinstance(st.targets[0], ast.Name) and isinstance(st.value, ast.Call) \
+                and ast.unparse(st.value.func) in ("pd.DataFrame", "pandas.DataFrame"):
+            kws = {k.arg: k.value for k in st.value.keywords}
+            data = kws.get("data", st.value.args[0] if st.value.args else None)
+            if data is None or ast.unparse(kws.get("columns", ast.Constant(None))) != "StopgapMotl.columns":
+                continue
+            if isinstance(data, ast.Call) and ast.unparse(data.func) in ("np.zeros", "numpy.zeros") and data.args and isinstance(data.args[0], ast.Tuple) \
+                    and len(data.args[0].elts) == 2 and isinstance(data.args[0].elts[1], ast.Constant) and ast.unparse(data.args[0].elts[0]) == "a0.shape[0]":
+                return st.targets[0].id, int(data.args[0].elts[1].value)
+    raise core.AnchorMissing("convert_to_sg_motl: <frame> = pd.DataFrame(data=np.zeros((motl_df.shape[0], <const>)), columns=StopgapMotl.columns)")
+
+
 def translate(src):
     rel = "cryocat/cryomotl.py"
     pairs = src.anchor("StopgapMotl.pairs", lambda: [[k, v] for k, v in src.literal(src.class_attr(rel, "StopgapMotl", "pairs")).items()])
     columns = src.anchor("StopgapMotl.columns", lambda: src.literal(src.class_attr(rel, "StopgapMotl", "columns")))
+    canon = lambda q: _canon(src.find(rel, q))          # parameters a0.., locals v0.. (renaming-insensitive)
 
-    def zeros_width():
-        fn = src.find(rel, "StopgapMotl.convert_to_sg_motl")
-        for n in ast.walk(fn):
-            if isinstance(n, ast.Call) and ast.unparse(n.func) in ("np.zeros", "numpy.zeros") and n.args and isinstance(n.args[0], ast.Tuple) \
-                    and len(n.args[0].elts) == 2 and isinstance(n.args[0].elts[1], ast.Constant) and "shape[0]" in ast.unparse(n.args[0].elts[0]):
-                return int(n.args[0].elts[1].value)
-        raise core.AnchorMissing("convert_to_sg_motl: np.zeros((motl_df.shape[0], <const>))")
-
-    width = src.anchor("convert_to_sg_motl:zeros-width", zeros_width)
+    width = src.anchor("convert_to_sg_motl:zeros-width", lambda: _frame_var(canon("StopgapMotl.convert_to_sg_motl"))[1])
 
     def export_loop():
-        a, b, tgt, val = _pairs_loop(src.find(rel, "StopgapMotl.convert_to_sg_motl"))
+        fn = canon("StopgapMotl.convert_to_sg_motl")
+        frame, _ = _frame_var(fn)
+        a, b, tgt, val = _pairs_loop(fn)
         inner, positional = _strip_positional(val)
-        if not (_is_sub(tgt, "stopgap_df", b) and _is_sub(inner, "motl_df", a)):
-            raise core.AnchorMissing(f"convert_to_sg_motl loop is not `stopgap_df[{b}] = motl_df[{a}]`: {ast.unparse(tgt)} = {ast.unparse(val)}")
+        if not (_is_sub(tgt, frame, b) and _is_sub(inner, "a0", a)):
+            raise core.AnchorMissing(f"convert_to_sg_motl loop is not `<frame>[star_key] = <motl_df>[em_key]`: {ast.unparse(tgt)} = {ast.unparse(val)}")
         return [True, positional]
 
     exp = src.anchor("convert_to_sg_motl:loop stopgap_df[star_key]=motl_df[em_key] (by position)", export_loop)
 
     def import_loop():
-        a, b, tgt, val = _pairs_loop(src.find(rel, "StopgapMotl.convert_to_motl"))
-        if not (_is_sub(tgt, "self.df", a) and _is_sub(val, "stopgap_df", b)):
-            raise core.AnchorMissing(f"convert_to_motl loop is not `self.df[{a}] = stopgap_df[{b}]`: {ast.unparse(tgt)} = {ast.unparse(val)}")
+        fn = canon("StopgapMotl.convert_to_motl")
+        a, b, tgt, val = _pairs_loop(fn)
+        if not (_is_sub(tgt, "self.df", a) and _is_sub(val, "a0", b)):
+            raise core.AnchorMissing(f"convert_to_motl loop is not `self.df[em_key] = <stopgap_df>[star_key]`: {ast.unparse(tgt)} = {ast.unparse(val)}")
         return True
 
     imp = src.anchor("convert_to_motl:loop self.df[em_key]=stopgap_df[star_key]", import_loop)
 
     def halfset():
-        fn = src.find(rel, "StopgapMotl.convert_to_sg_motl")
+        fn = canon("StopgapMotl.convert_to_sg_motl")
+        frame, _ = _frame_var(fn)
         for n in ast.walk(fn):
-            if isinstance(n, ast.Assign) and len(n.targets) == 1 and _is_sub(n.targets[0], "stopgap_df", "halfset"):
+            if isinstance(n, ast.Assign) and len(n.targets) == 1 and _is_sub(n.targets[0], frame, "halfset"):
                 v = n.value
                 if not (isinstance(v, ast.Call) and ast.unparse(v.func) in ("np.where", "numpy.where") and len(v.args) == 3):
                     break
                 cond, _ = _strip_positional(v.args[0])
-                # motl_df[SRC].mod(M).eq(K)
+                # <motl_df>[SRC].mod(M).eq(K)
                 if not (isinstance(cond, ast.Call) and isinstance(cond.func, ast.Attribute) and cond.func.attr == "eq" and len(cond.args) == 1):
                     break
                 m = cond.func.value
                 if not (isinstance(m, ast.Call) and isinstance(m.func, ast.Attribute) and m.func.attr == "mod" and len(m.args) == 1):
                     break
                 s = m.func.value
-                if not (_is_sub(s, "motl_df") and isinstance(s.slice, ast.Constant)):
+                if not (_is_sub(s, "a0") and isinstance(s.slice, ast.Constant)):
                     break
                 vals = [src.literal(x) for x in (m.args[0], cond.args[0], v.args[1], v.args[2])]
                 if not (isinstance(vals[0], int) and isinstance(vals[1], int) and vals[0] >= 0 and vals[1] >= 0 and isinstance(vals[2], str) and isinstance(vals[3], str)):
                     break
                 return [s.slice.value] + vals
-        raise core.AnchorMissing('convert_to_sg_motl: stopgap_df["halfset"] = np.where(motl_df[<col>].mod(<m>).eq(<k>)[.to_numpy()], <a>, <b>)')
+        raise core.AnchorMissing('convert_to_sg_motl: <frame>["halfset"] = np.where(<motl_df>[<col>].mod(<m>).eq(<k>)[.to_numpy()], <a>, <b>)')
 
     half = src.anchor("convert_to_sg_motl:halfset = np.where(subtomo_id.mod(2).eq(0), A, B)", halfset)
 
     def motl_idx():
-        fn = src.find(rel, "StopgapMotl.convert_to_sg_motl")
+        fn = canon("StopgapMotl.convert_to_sg_motl")
+        frame, _ = _frame_var(fn)
         for n in ast.walk(fn):
-            if isinstance(n, ast.Assign) and len(n.targets) == 1 and _is_sub(n.targets[0], "stopgap_df", "motl_idx"):
-                if _is_sub(n.value, "stopgap_df") and isinstance(n.value.slice, ast.Constant):
+            if isinstance(n, ast.Assign) and len(n.targets) == 1 and _is_sub(n.targets[0], frame, "motl_idx"):
+                if _is_sub(n.value, frame) and isinstance(n.value.slice, ast.Constant):
                     return n.value.slice.value
-        raise core.AnchorMissing('convert_to_sg_motl: stopgap_df["motl_idx"] = stopgap_df[<col>]')
+        raise core.AnchorMissing('convert_to_sg_motl: <frame>["motl_idx"] = <frame>[<col>]')
 
     idx_src = src.anchor("convert_to_sg_motl:motl_idx source column", motl_idx)
 
+    def export_order():
+        """statement order of convert_to_sg_motl: frame, copy loop, halfset, motl_idx, reset call (with the reset_index parameter), return"""
+        fn = canon("StopgapMotl.convert_to_sg_motl")
+        frame, _ = _frame_var(fn)
+        kinds = []
+        for st in fn.body:
+            t = ast.unparse(st).replace(" ", "")
+            if isinstance(st, ast.For):
+                kinds.append("loop")
+            elif t.startswith(f"{frame}['halfset']="):
+                kinds.append("halfset")
+            elif t.startswith(f"{frame}['motl_idx']="):
+                kinds.append("motl_idx")
+            elif t in (f"{frame}=StopgapMotl.sg_df_reset_index({frame},a1)", f"{frame}=StopgapMotl.sg_df_reset_index({frame},reset_index=a1)"):
+                kinds.append("reset")
+            elif t == f"return{frame}":
+                kinds.append("return")
+            elif isinstance(st, ast.Assign) and t.startswith(f"{frame}=pd.DataFrame("):
+                kinds.append("frame")
+            else:
+                kinds.append("other:" + t[:60])
+        return kinds
+
+    order = src.anchor("convert_to_sg_motl:statement order", export_order)
+
     def reset_range():
-        fn = src.find(rel, "StopgapMotl.sg_df_reset_index")
+        fn = canon("StopgapMotl.sg_df_reset_index")
         for n in ast.walk(fn):
-            if isinstance(n, ast.If) and ast.unparse(n.test) == "reset_index":
+            if isinstance(n, ast.If) and ast.unparse(n.test) == "a1" and not n.orelse:
                 for st in n.body:
-                    if isinstance(st, ast.Assign) and _is_sub(st.targets[0], "stopgap_df", "motl_idx") and isinstance(st.value, ast.Call) \
+                    if isinstance(st, ast.Assign) and _is_sub(st.targets[0], "a0", "motl_idx") and isinstance(st.value, ast.Call) \
                             and ast.unparse(st.value.func) == "range" and len(st.value.args) == 2 and isinstance(st.value.args[0], ast.Constant):
                         start, stop = st.value.args
-                        if ast.unparse(stop) == "stopgap_df.shape[0]":
+                        if ast.unparse(stop) == "a0.shape[0]":
                             return [int(start.value), 0]
-                        if isinstance(stop, ast.BinOp) and isinstance(stop.op, ast.Add) and ast.unparse(stop.left) == "stopgap_df.shape[0]" \
+                        if isinstance(stop, ast.BinOp) and isinstance(stop.op, ast.Add) and ast.unparse(stop.left) == "a0.shape[0]" \
                                 and isinstance(stop.right, ast.Constant):
                             return [int(start.value), int(stop.right.value)]
-        raise core.AnchorMissing('sg_df_reset_index: if reset_index: stopgap_df["motl_idx"] = range(<start>, stopgap_df.shape[0] + <k>)')
+        raise core.AnchorMissing('sg_df_reset_index: if reset_index: <df>["motl_idx"] = range(<start>, <df>.shape[0] + <k>)')
 
     rr = src.anchor("sg_df_reset_index:range(1, N+1)", reset_range)
 
     def write_spec():
-        fn = src.find(rel, "StopgapMotl.write_out")
-        txt = ast.unparse(fn)
-        if "convert_to_sg_motl(self.df, reset_index)" not in txt.replace("reset_index=reset_index", "reset_index"):
+        fn = canon("StopgapMotl.write_out")          # a0 output_path, a1 update_coord, a2 reset_index
+        txt = ast.unparse(fn).replace(" ", "")
+        if "StopgapMotl.convert_to_sg_motl(self.df,a2)" not in txt.replace("reset_index=a2", "a2"):
             raise core.AnchorMissing("write_out: convert_to_sg_motl(self.df, reset_index)")
         for n in ast.walk(fn):
             if isinstance(n, ast.Call) and ast.unparse(n.func).endswith("Starfile.write"):
+                if len(n.args) < 2 or ast.unparse(n.args[1]) != "a0" or not isinstance(n.args[0], ast.List) or len(n.args[0].elts) != 1:
+                    continue
                 for kw in n.keywords:
                     if kw.arg == "specifiers":
                         v = src.literal(kw.value)
                         if isinstance(v, list) and len(v) == 1:
                             return v[0]
-        raise core.AnchorMissing("write_out: Starfile.write(..., specifiers=[<const>])")
+        raise core.AnchorMissing("write_out: Starfile.write([<frame>], output_path, specifiers=[<const>])")
 
     wspec = src.anchor("write_out:specifier", write_spec)
 
     def write_order():
         """`if update_coord: self.update_coordinates()` comes before the conversion in write_out"""
-        fn = src.find(rel, "StopgapMotl.write_out")
+        fn = canon("StopgapMotl.write_out")
         upd = conv = None
         for n in ast.walk(fn):
-            if isinstance(n, ast.If) and ast.unparse(n.test) == "update_coord" and "self.update_coordinates()" in ast.unparse(n):
+            if isinstance(n, ast.If) and ast.unparse(n.test) == "a1" and ast.unparse(n.body[0]) == "self.update_coordinates()" and len(n.body) == 1 and not n.orelse:
                 upd = n.lineno
             if isinstance(n, ast.Call) and ast.unparse(n.func).endswith("convert_to_sg_motl"):
                 conv = n.lineno
@@ -188,16 +323,14 @@ def translate(src):
     src.anchor("write_out:update_coordinates before conversion", write_order)
 
     def converter():
-        fn = src.find(rel, "emmotl2stopgap")
-        txt = ast.unparse(fn)
-        need = ["sg_motl = StopgapMotl(motl.df)", "if update_coordinates:\n        sg_motl.update_coordinates()",
-                "sg_motl.write_out(output_motl_path, update_coord=False, reset_index=reset_index)"]
+        txt = _dump(canon("emmotl2stopgap"))       # a0 input_motl, a1 output_motl_path, a2 update_coordinates, a3 reset_index
+        need = ["v0=EmMotl(a0)", "v1=StopgapMotl(v0.df)", "ifa2:;v1.update_coordinates()",
+                "v1.write_out(a1,update_coord=False,reset_index=a3)", "returnv1"]
         miss = [x for x in need if x not in txt]
         if miss:
             raise core.AnchorMissing(f"emmotl2stopgap: {miss}")
-        fn2 = src.find(rel, "stopgap2emmotl")
-        txt2 = ast.unparse(fn2)
-        need2 = ["sg_motl = StopgapMotl(input_motl)", "em_motl = EmMotl(sg_motl.df)"]
+        txt2 = _dump(canon("stopgap2emmotl"))
+        need2 = ["v0=StopgapMotl(a0)", "v1=EmMotl(v0.df)", "returnv1"]
         miss = [x for x in need2 if x not in txt2]
         if miss:
             raise core.AnchorMissing(f"stopgap2emmotl: {miss}")
@@ -206,52 +339,84 @@ def translate(src):
     src.anchor("emmotl2stopgap/stopgap2emmotl: go through StopgapMotl, pass reset_index", converter)
 
     def read_spec():
-        fn = src.find(rel, "StopgapMotl.read_in")
+        fn = canon("StopgapMotl.read_in")
+        names = set()
         for n in ast.walk(fn):
-            if isinstance(n, ast.Compare) and isinstance(n.left, ast.Constant) and isinstance(n.ops[0], (ast.NotIn, ast.In)) and ast.unparse(n.comparators[0]) == "specifiers":
-                return n.left.value
-        raise core.AnchorMissing('read_in: "<specifier>" not in specifiers')
+            if isinstance(n, ast.Compare) and isinstance(n.left, ast.Constant) and isinstance(n.ops[0], (ast.NotIn, ast.In)) and isinstance(n.comparators[0], ast.Name):
+                names.add(n.left.value)
+            if isinstance(n, ast.Call) and ast.unparse(n.func).endswith("get_specifier_id") and len(n.args) == 2 and isinstance(n.args[1], ast.Constant):
+                names.add(n.args[1].value)
+        if len(names) != 1:
+            raise core.AnchorMissing(f'read_in: one block name in `"<specifier>" not in specifiers` and get_specifier_id(specifiers, "<specifier>"): {sorted(names)}')
+        return names.pop()
 
     rspec = src.anchor("read_in:specifier", read_spec)
+    prec = src.anchor("Starfile.write:float_precision", lambda: int(_sig_default(src, "cryocat/starfileio.py", "Starfile.write", "float_precision")))
 
-    def precision():
-        fn = src.find("cryocat/starfileio.py", "Starfile.write")
-        names = [a.arg for a in fn.args.args]
-        defaults = dict(zip(names[len(names) - len(fn.args.defaults):], fn.args.defaults))
-        if "float_precision" not in defaults:
-            raise core.AnchorMissing("Starfile.write(float_precision=<const>)")
-        return int(src.literal(defaults["float_precision"]))
+    dflt = {}
+    for key, qual, name in (("conv_reset", "StopgapMotl.convert_to_sg_motl", "reset_index"), ("sg_reset", "StopgapMotl.sg_df_reset_index", "reset_index"),
+                            ("write_update", "StopgapMotl.write_out", "update_coord"), ("write_reset", "StopgapMotl.write_out", "reset_index"),
+                            ("em2sg_update", "emmotl2stopgap", "update_coordinates"), ("em2sg_reset", "emmotl2stopgap", "reset_index"),
+                            ("sg2em_update", "stopgap2emmotl", "update_coordinates"), ("keep_halfsets", "StopgapMotl.convert_to_motl", "keep_halfsets")):
+        def get(qual=qual, name=name):
+            v = _sig_default(src, rel, qual, name)
+            if not isinstance(v, bool):
+                raise core.AnchorMissing(f"{qual}({name}=<bool>): {v!r}")
+            return v
+        v = src.anchor(f"default:{qual}({name})", get)
+        dflt[key] = DOC_DEFAULTS[key] if v is None else v
 
-    prec = src.anchor("Starfile.write:float_precision", precision)
+    digests, dumps = [], []
+    for q in BODY_FUNCS:
+        d = src.anchor(f"body:{q}", lambda q=q: _dump(canon(q)))
+        dumps.append((q, d))
+        digests.append((q, hashlib.sha256(d.encode()).hexdigest()[:16] if d is not None else DOC_DIGESTS.get(q, "")))
 
+    # a missing anchor falls back to the DOCUMENTED value (anchorsOk = false reports it), never to a value that changes the model
     ok_pairs = isinstance(pairs, list) and all(isinstance(k, str) and isinstance(v, str) for k, v in pairs)
     pairs = pairs if ok_pairs else [list(p) for p in DOC_PAIRS]
     columns = columns if isinstance(columns, list) and all(isinstance(c, str) for c in columns) else DOC_COLUMNS
     half = half or ["subtomo_id", 2, 0, "A", "B"]
     rr = rr or [1, 1]
-    exp = exp or [False, False]
+    exp = exp or [True, True]
+    imp = True if imp is None else imp
+    order = order if order is not None else ["frame", "loop", "halfset", "motl_idx", "reset", "return"]
     b = lambda x: "true" if x else "false"
     pair_txt = "[" + ", ".join(f"({core.lean_str(k)}, {core.lean_str(v)})" for k, v in pairs) + "]"
+    dig_txt = "[" + ", ".join(f"({core.lean_str(k)}, {core.lean_str(v)})" for k, v in digests) + "]"
+    dump_txt = "\n".join(f"-- {q}: {d}" for q, d in dumps)
     return f"""-- GENERATED by harness/props/c04.py from cryocat/cryomotl.py, cryocat/starfileio.py; do not edit
 namespace CryoCat.Gen.C04
 def anchorsOk : Bool := {b(src.ok)}
 def sgPairNames : List (String × String) := {pair_txt}
 def sgColumnNames : List String := {core.lean_str_list(columns)}
-def zerosWidth : Nat := {width if width is not None else 0}
+def zerosWidth : Nat := {width if width is not None else 16}
 def exportLoopCopiesMotlToSg : Bool := {b(exp[0])}
 def exportLoopPositional : Bool := {b(exp[1])}
 def importLoopCopiesSgToMotl : Bool := {b(imp)}
+def exportOrder : List String := {core.lean_str_list(order)}
 def halfsetSourceName : String := {core.lean_str(half[0])}
 def halfsetMod : Nat := {half[1]}
 def halfsetEq : Nat := {half[2]}
 def halfsetThen : String := {core.lean_str(half[3])}
 def halfsetElse : String := {core.lean_str(half[4])}
-def motlIdxSourceName : String := {core.lean_str(idx_src or "")}
+def motlIdxSourceName : String := {core.lean_str(idx_src or "subtomo_num")}
 def resetStart : Nat := {rr[0]}
 def resetStopOffset : Nat := {rr[1]}
-def writeSpecifier : String := {core.lean_str(wspec or "")}
-def readSpecifier : String := {core.lean_str(rspec or "")}
-def starFloatPrecision : Nat := {prec if prec is not None else 0}
+def writeSpecifier : String := {core.lean_str(wspec or SPECIFIER)}
+def readSpecifier : String := {core.lean_str(rspec or SPECIFIER)}
+def starFloatPrecision : Nat := {prec if prec is not None else 6}
+def convResetDefault : Bool := {b(dflt["conv_reset"])}
+def sgResetDefault : Bool := {b(dflt["sg_reset"])}
+def writeUpdateDefault : Bool := {b(dflt["write_update"])}
+def writeResetDefault : Bool := {b(dflt["write_reset"])}
+def em2sgUpdateDefault : Bool := {b(dflt["em2sg_update"])}
+def em2sgResetDefault : Bool := {b(dflt["em2sg_reset"])}
+def sg2emUpdateDefault : Bool := {b(dflt["sg2em_update"])}
+def keepHalfsetsDefault : Bool := {b(dflt["keep_halfsets"])}
+-- normalised bodies (parameters a0.., locals v0.., docstrings dropped) and their sha256 digests (first 16 hex digits)
+{dump_txt}
+def bodyDigests : List (String × String) := {dig_txt}
 end CryoCat.Gen.C04
 """
 
@@ -312,49 +477,84 @@ def _particle(rng, style):
     return p
 
 
+BIG_IDS = [2.0 ** 53, 2.0 ** 53 + 2, 2.0 ** 53 + 4, 1e16, 1e17, 2.0 ** 60, 2.0 ** 62, 9007199254740990.0, 9007199254740991.0]
+
+
 def _ids(rng, n):
+    """subtomogram numbers: mostly non-negative integers, non-sequential; small shares of negative, beyond-2^53 and non-integral numbers"""
     k = rng.random()
     if k < 0.08:
-        return list(range(1, n + 1))                       # already sequential (trivial for reset)
+        return [float(i) for i in range(1, n + 1)]                       # already sequential (trivial for reset)
     if k < 0.16:
-        return [rng.choice([2, 4, 6, 1000])] * n if rng.random() < 0.5 else [2 * rng.randint(1, 10 ** 5) + rng.randint(0, 1) * 0 for _ in range(n)]
+        return [float(rng.choice([2, 4, 6, 1000]))] * n if rng.random() < 0.5 else [float(2 * rng.randint(1, 10 ** 5)) for _ in range(n)]
     if k < 0.22:
-        return [2 * rng.randint(0, 10 ** 5) + 1 for _ in range(n)]   # all odd
+        return [float(2 * rng.randint(0, 10 ** 5) + 1) for _ in range(n)]   # all odd
     hi = rng.choice([3 * n + 5, 10 ** 4, 10 ** 6, 2 ** 31 - 1, 10 ** 9])
-    ids = [rng.randint(0 if rng.random() < 0.02 else 1, hi) for _ in range(n)]
+    ids = [float(rng.randint(0 if rng.random() < 0.02 else 1, hi)) for _ in range(n)]
     if rng.random() < 0.5:
         ids.sort(reverse=rng.random() < 0.3)
+    k = rng.random()
+    if k < 0.07:                                                          # negative numbers (both parities)
+        for i in rng.sample(range(n), max(1, n // 3)):
+            ids[i] = -ids[i] if ids[i] else -3.0
+    elif k < 0.13:                                                        # beyond 2^53: every float is an even integer there
+        for i in rng.sample(range(n), max(1, n // 4)):
+            ids[i] = rng.choice(BIG_IDS) * rng.choice([1.0, 1.0, -1.0])
+    elif k < 0.17:                                                        # non-integral: neither even nor odd (statement silent)
+        for i in rng.sample(range(n), max(1, n // 4)):
+            ids[i] = ids[i] + rng.choice([0.5, 0.25, -0.5, 1e-9])
     return ids
 
 
-def _export_case(rng, tier):
+def _opt(rng):
+    """an optional boolean keyword: omitted (None -> the library's default is exercised) in ~30 % of the cases"""
+    k = rng.random()
+    return None if k < 0.3 else (k < 0.65)
+
+
+def _export_step(rng, tier, n=None, like=None):
     big = {"quick": 0.08, "thorough": 0.15, "search": 0.0}[tier]
-    n = rng.randint(41, 300) if rng.random() < big else (1 if rng.random() < 0.06 else rng.randint(2, 12 if tier == "search" else 40))
+    if n is None:
+        n = rng.randint(41, 300) if rng.random() < big else (1 if rng.random() < 0.06 else rng.randint(2, 12 if tier == "search" else 40))
     style = "arbitrary" if rng.random() < 0.35 else "realistic"
     rows = []
     ids = _ids(rng, n)
-    int_ids = rng.random() < 0.3
+    int_ids = rng.random() < 0.3 if like is None else like["int_ids"]
     for i in range(n):
         p = _particle(rng, style)
-        p["subtomo_id"] = float(ids[i])
+        p["subtomo_id"] = ids[i]
         if int_ids:                                   # an int64 column cannot hold -0.0
             for c in ID_COLS:
                 p[c] = p[c] + 0.0
         rows.append([f2b(p[c]) for c in MOTL_COLS])
-    index = rng.choices(["range", "filtered", "shuffled", "offset"], [0.4, 0.25, 0.25, 0.1])[0]
-    if index == "filtered":
-        labels = sorted(rng.sample(range(0, 2 * n + 3), n))
-    elif index == "shuffled":
-        labels = list(range(n)); rng.shuffle(labels)
-    elif index == "offset":
-        off = rng.randint(1, 50); labels = list(range(off, off + n))
+    if like is not None:
+        index, labels, cols = like["index"], list(like["labels"]), list(like["cols"])
     else:
-        labels = list(range(n))
-    cols = list(MOTL_COLS)
-    if rng.random() < 0.3:
-        rng.shuffle(cols)
-    return dict(kind="export", rows=rows, reset=rng.random() < 0.5, update=rng.random() < 0.5, index=index, labels=labels,
-                int_ids=int_ids, cols=cols)
+        index = rng.choices(["range", "filtered", "shuffled", "offset"], [0.4, 0.25, 0.25, 0.1])[0]
+        if index == "filtered":
+            labels = sorted(rng.sample(range(0, 2 * n + 3), n))
+        elif index == "shuffled":
+            labels = list(range(n)); rng.shuffle(labels)
+        elif index == "offset":
+            off = rng.randint(1, 50); labels = list(range(off, off + n))
+        else:
+            labels = list(range(n))
+        cols = list(MOTL_COLS)
+        if rng.random() < 0.3:
+            rng.shuffle(cols)
+    return dict(rows=rows, reset=_opt(rng), update=_opt(rng), index=index, labels=labels, int_ids=int_ids, cols=cols)
+
+
+def _export_case(rng, tier):
+    case = dict(kind="export", **_export_step(rng, tier))
+    k = rng.random()
+    n = len(case["rows"])
+    if k < 0.22:        # the same two paths are written and loaded a second time with a DIFFERENT list (usually another count)
+        n2 = rng.choice([1, 2, 3, max(1, n - 1), n + 1, n, rng.randint(1, 12)])
+        case["second"] = dict(_export_step(rng, tier, n=n2), mode="new")
+    elif k < 0.32:      # the caller edits its own DataFrame in place (same object) and converts / writes it again
+        case["second"] = dict(_export_step(rng, tier, n=n, like=case), mode="mutate")
+    return case
 
 
 def _import_case(rng, tier):
@@ -385,7 +585,22 @@ def _import_case(rng, tier):
         for c in cols:
             row.append(rng.choice(["A", "B"]) if c == "halfset" else f2b(sg[c]))
         rows.append(row)
-    return dict(kind="import", cols=cols, rows=rows, extra=extra, missing=missing, int_ids=int_ids)
+    index = rng.choices(["range", "filtered", "shuffled", "offset"], [0.45, 0.2, 0.25, 0.1])[0]
+    if index == "filtered":
+        labels = sorted(rng.sample(range(0, 2 * n + 3), n))
+    elif index == "shuffled":
+        labels = list(range(n)); rng.shuffle(labels)
+    elif index == "offset":
+        off = rng.randint(1, 50); labels = list(range(off, off + n))
+    else:
+        labels = list(range(n))
+    text_cell = None
+    if missing is None and rng.random() < 0.06:       # outside the quantifier: a text cell in one of the 14 numeric columns
+        c = rng.choice([s for _, s in DOC_PAIRS])
+        i = rng.randrange(n)
+        rows[i][cols.index(c)] = rng.choice(["n/a", "x12", "--", "1,5"])
+        text_cell = [i, c]
+    return dict(kind="import", cols=cols, rows=rows, extra=extra, missing=missing, int_ids=int_ids, index=index, labels=labels, text_cell=text_cell)
 
 
 def generate(rng, tier, n):
@@ -393,15 +608,46 @@ def generate(rng, tier, n):
         yield _import_case(rng, tier) if rng.random() < 0.2 else _export_case(rng, tier)
 
 
+def _steps(case):
+    return [case] + ([case["second"]] if case.get("second") else [])
+
+
+def _sub_step(step, idx):
+    c = dict(step, rows=[step["rows"][i] for i in idx])
+    if "labels" in step:
+        c["labels"] = [step["labels"][i] for i in idx]
+    return c
+
+
 def shrink(case):
     rows = case["rows"]
     n = len(rows)
+    if case.get("text_cell") is not None:
+        return
+    if case["kind"] == "export" and case.get("second"):
+        sec = case["second"]
+        first = {k: v for k, v in case.items() if k != "second"}
+        yield first                                               # the first step alone
+        yield dict(kind="export", **{k: v for k, v in sec.items() if k != "mode"})   # the second step alone
+        n2 = len(sec["rows"])
+        if sec["mode"] == "new":
+            if n2 > 1:
+                yield dict(case, second=_sub_step(sec, range(n2 // 2)))
+                yield dict(case, second=_sub_step(sec, range(n2 // 2, n2)))
+            if n > 1:
+                yield dict(_sub_step(case, range(n // 2)), second=sec)
+                yield dict(_sub_step(case, range(n // 2, n)), second=sec)
+            for key in ("update", "reset"):
+                if sec[key]:
+                    yield dict(case, second=dict(sec, **{key: False}))
+                if case[key]:
+                    yield dict(case, **{key: False})
+        elif n > 1:
+            for idx in (range(n // 2), range(n // 2, n)):
+                yield dict(_sub_step(case, idx), second=_sub_step(sec, idx))
+        return
     def sub(idx):
-        c = dict(case, rows=[rows[i] for i in idx])
-        if case["kind"] == "export":
-            lab = [case["labels"][i] for i in idx]
-            c["labels"] = lab
-        return c
+        return _sub_step(case, idx)
     if n > 1:
         yield sub(range(n // 2))
         yield sub(range(n // 2, n))
@@ -433,54 +679,145 @@ def shrink(case):
     else:
         if case.get("extra"):
             yield dict(case, extra=False)
+        if case.get("index", "range") != "range":
+            yield dict(case, index="range", labels=list(range(n)))
         if case["cols"] != DOC_COLUMNS and case.get("missing") is None:
             order = [case["cols"].index(c) for c in DOC_COLUMNS]
             yield dict(case, cols=list(DOC_COLUMNS), rows=[[r[k] for k in order] for r in rows])
 
 
 # ------------------------------------------------------------------------------------------ implementation
-
-def _cellbits(v):
-    if isinstance(v, str):
-        return v
-    return f2b(float(v))
-
-
-def _table(df):
-    return dict(cols=[str(c) for c in df.columns], rows=[[_cellbits(v) for v in row] for row in df.itertuples(index=False, name=None)],
-                dtypes={str(c): str(t) for c, t in df.dtypes.items() if str(c) in ("halfset", "motl_idx", "subtomo_num")})
-
-
-def _motl_rows(df):
-    return [[f2b(float(v)) for v in row] for row in df[MOTL_COLS].itertuples(index=False, name=None)]
+def _guard(fn):
+    """run one library call; an exception becomes an observation that says whether a frame of cryoCAT is on the traceback"""
+    try:
+        return fn(), None
+    except Exception as e:
+        where = ""
+        for fr in reversed(traceback.extract_tb(e.__traceback__)):
+            if "/cryocat/" in fr.filename.replace("\\", "/"):
+                where = f"{os.path.basename(fr.filename)}:{fr.lineno}"
+                break
+        return None, {"error": f"{type(e).__name__}: {str(e)[:300]}", "where": where}
 
 
-def _build_motl_df(case):
+def _cell(v):
+    """one DataFrame cell without coercion of its kind: a number -> IEEE bits of its float64 value, anything else -> text"""
+    import numpy as np
+    if isinstance(v, (bool, np.bool_)):
+        return "bool:" + str(bool(v))
+    if isinstance(v, (int, float, np.integer, np.floating)):
+        return f2b(float(v))
+    return v if isinstance(v, str) else "obj:" + repr(v)[:40]
+
+
+def _frame(df, want_cols=None):
+    """columns, cells and dtypes of a DataFrame exactly as returned (no float()/to_numeric coercion): the dtype of every column,
+    for object columns the python types met, integers that a float64 cannot hold exactly"""
+    cols = [str(c) for c in df.columns]
+    order = list(range(len(cols)))
+    if want_cols is not None and sorted(cols) == sorted(want_cols):
+        order = [cols.index(c) for c in want_cols]
+    arrays = [df.iloc[:, k].tolist() for k in order]
+    rows = [[_cell(col[i]) for col in arrays] for i in range(len(df))]
+    dtypes = {cols[k]: str(df.dtypes.iloc[k]) for k in order}
+    kinds = {cols[k]: getattr(df.dtypes.iloc[k], "kind", "O") for k in order}
+    inexact = [cols[k] for k, col in zip(order, arrays) if kinds[cols[k]] in "iu" and any(int(float(v)) != int(v) for v in col)]
+    return dict(cols=[cols[k] for k in order], orig_cols=cols, rows=rows, dtypes=dtypes, kinds=kinds, inexact=inexact, index=[_lab(x) for x in df.index])
+
+
+def _lab(x):
+    try:
+        return int(x)
+    except Exception:
+        return str(x)
+
+
+def _snap(df):
+    f = _frame(df)
+    return (f["orig_cols"], f["rows"], f["dtypes"], f["index"])
+
+
+def _col_is_int(step, c):
+    j = MOTL_COLS.index(c)
+    return bool(step["int_ids"]) and c in ID_COLS and all(b2f(r[j]).is_integer() and abs(b2f(r[j])) < 2 ** 62 for r in step["rows"])
+
+
+def _build_motl_df(step):
     import pandas as pd, numpy as np
-    vals = [[b2f(b) for b in r] for r in case["rows"]]
+    vals = [[b2f(b) for b in r] for r in step["rows"]]
     data = {}
-    for c in case["cols"]:
+    for c in step["cols"]:
         j = MOTL_COLS.index(c)
         col = [v[j] for v in vals]
-        if case["int_ids"] and c in ID_COLS and all(float(x).is_integer() and abs(x) < 2 ** 62 for x in col):
+        if _col_is_int(step, c):
             data[c] = np.array(col, dtype=np.float64).astype(np.int64)
         else:
             data[c] = np.array(col, dtype=np.float64)
-    return pd.DataFrame(data, index=list(case["labels"]))
+    return pd.DataFrame(data, index=list(step["labels"]))
 
 
 def _file_obs(path, cryomotl):
     o = {}
-    blocks = parse_star(path)
+    blocks, err = _guard(lambda: parse_star(path))
+    if err:
+        return dict(err, stage="harness-parse")
     o["blocks"] = [b["spec"] for b in blocks]
+    txt = open(path).read()
+    o["text"] = txt if len(txt) <= 400000 else None
     blk = next((b for b in blocks if b["spec"] == SPECIFIER), None)
     if blk is not None:
         o["cols"], o["tokens"], o["loop"] = blk["cols"], blk["rows"], blk["loop"]
-    m2 = cryomotl.StopgapMotl(path)
-    o["loaded_cols"] = [str(c) for c in m2.df.columns]
-    # a field that comes back as text (object dtype) is not "reproduced": record it instead of coercing silently
-    o["loaded_text_cols"] = [str(c) for c, t in m2.df.dtypes.items() if t.kind not in "fiub"]
-    o["loaded"] = _motl_rows(m2.df)
+    m2, err = _guard(lambda: cryomotl.StopgapMotl(path))
+    if err:
+        o["load_error"] = err
+    else:
+        o["loaded"] = _frame(m2.df, MOTL_COLS)
+    return o
+
+
+def _kw(step, **names):
+    """keyword arguments of one call: an option whose value is None in the case is OMITTED (library default)"""
+    return {kw: step[key] for kw, key in names.items() if step[key] is not None}
+
+
+def _run_export_step(step, df, td, cryomotl):
+    o = {"mutated": []}
+    snap = [_snap(df)]
+
+    def unchanged(label):
+        s2 = _snap(df)
+        if s2 != snap[0]:
+            o["mutated"].append(label)
+            snap[0] = s2
+
+    mem, err = _guard(lambda: cryomotl.StopgapMotl.convert_to_sg_motl(df, **_kw(step, reset_index="reset")))
+    o["mem"] = err or _frame(mem)
+    unchanged("StopgapMotl.convert_to_sg_motl")
+    p = os.path.join(td, "a.star")
+
+    def file_route():
+        m = cryomotl.StopgapMotl(df)
+        m.write_out(p, **_kw(step, update_coord="update", reset_index="reset"))
+        return m
+
+    m, err = _guard(file_route)
+    unchanged("StopgapMotl(df).write_out")
+    if err:
+        o["file"] = err
+    else:
+        f = _file_obs(p, cryomotl)
+        f["after"] = _frame(m.df, MOTL_COLS)
+        o["file"] = f
+    p2 = os.path.join(td, "b.star")
+    sg, err = _guard(lambda: cryomotl.emmotl2stopgap(df, p2, **_kw(step, update_coordinates="update", reset_index="reset")))
+    unchanged("emmotl2stopgap")
+    if err:
+        o["conv"] = err
+    else:
+        g = _file_obs(p2, cryomotl)
+        g["after"] = _frame(sg.df, MOTL_COLS)
+        g["type"] = type(sg).__name__
+        o["conv"] = g
     return o
 
 
@@ -489,23 +826,20 @@ def run_impl(case):
     from cryocat import cryomotl
     warnings.filterwarnings("ignore")
     if case["kind"] == "export":
-        df = _build_motl_df(case)
-        out = {}
-        mem = cryomotl.StopgapMotl.convert_to_sg_motl(df.copy(), reset_index=case["reset"])
-        out["mem"] = _table(mem)
+        out = {"steps": []}
         with tempfile.TemporaryDirectory(prefix="c04_") as td:
-            m = cryomotl.StopgapMotl(df.copy())
-            p = os.path.join(td, "a.star")
-            m.write_out(p, update_coord=case["update"], reset_index=case["reset"])
-            f = _file_obs(p, cryomotl)
-            f["after"] = _motl_rows(m.df)
-            out["file"] = f
-            p2 = os.path.join(td, "b.star")
-            sg = cryomotl.emmotl2stopgap(df.copy(), p2, update_coordinates=case["update"], reset_index=case["reset"])
-            g = _file_obs(p2, cryomotl)
-            g["after"] = _motl_rows(sg.df)
-            g["type"] = type(sg).__name__
-            out["conv"] = g
+            df = _build_motl_df(case)                      # caller-owned: the SAME object goes into every call of the step
+            out["steps"].append(_run_export_step(case, df, td, cryomotl))
+            sec = case.get("second")
+            if sec:
+                if sec["mode"] == "mutate":                 # the caller edits its frame in place, then converts / writes it again
+                    new = _build_motl_df(sec)
+                    for c in df.columns:
+                        df[c] = new[c].to_numpy()
+                    df2 = df
+                else:
+                    df2 = _build_motl_df(sec)
+                out["steps"].append(_run_export_step(sec, df2, td, cryomotl))    # same directory: a.star / b.star are overwritten
         return out
     # import
     data = {}
@@ -513,35 +847,59 @@ def run_impl(case):
         col = [r[j] for r in case["rows"]]
         if c == "halfset":
             data[c] = col
+        elif any(isinstance(b, str) for b in col):
+            data[c] = np.array([b if isinstance(b, str) else b2f(b) for b in col], dtype=object)
         else:
             x = np.array([b2f(b) for b in col], dtype=np.float64)
             if case["int_ids"] and c in ("subtomo_num", "tomo_num", "object", "class", "motl_idx") and all(float(v).is_integer() for v in x):
                 x = x.astype(np.int64)
             data[c] = x
-    sg_df = pd.DataFrame(data)
+    sg_df = pd.DataFrame(data, index=list(case.get("labels") or range(len(case["rows"]))))
     if case.get("extra"):
         sg_df["extra_col"] = np.arange(len(sg_df), dtype=float)
-    out = {}
+    out = {"mutated": []}
+    snap = _snap(sg_df)
     for name, fn in (("ctor", lambda d: cryomotl.StopgapMotl(d)), ("conv", lambda d: cryomotl.stopgap2emmotl(d))):
-        try:
-            m = fn(sg_df.copy())
-            out[name] = dict(cols=[str(c) for c in m.df.columns], rows=_motl_rows(m.df), type=type(m).__name__)
-        except KeyError as e:
-            out[name] = {"reject": "keyerror", "detail": str(e)[:80]}
+        m, err = _guard(lambda: fn(sg_df))                 # the same caller-owned frame for both calls
+        if err:
+            out[name] = {"reject": "keyerror", "detail": err["error"][:80]} if err["error"].startswith("KeyError") and err["where"] else err
+        else:
+            out[name] = dict(_frame(m.df, MOTL_COLS), type=type(m).__name__)
+        if _snap(sg_df) != snap:
+            out["mutated"].append(name)
+            snap = _snap(sg_df)
     return out
 
 
+def _star_text(f):
+    """text of a written file handed to the proved reader (files of up to ~100 particles; longer ones are read by the harness tokenizer only)"""
+    t = f.get("text") or ""
+    return t if len(t) <= 20000 else ""
+
+
+def _import_routes(obs):
+    return {k: v for k, v in obs.items() if k in ("ctor", "conv")}
+
+
 def requests(case, obs):
-    if "error" in obs:
-        return [dict(op="export", rows=case["rows"], reset=case["reset"], update=case["update"])] if case["kind"] == "export" else \
-               [dict(op="import", table=dict(cols=case["cols"], rows=case["rows"]))]
     if case["kind"] == "export":
-        mem = dict(cols=obs["mem"]["cols"], rows=obs["mem"]["rows"])
-        return [dict(op="export", rows=case["rows"], reset=case["reset"], update=False, out=mem),
-                dict(op="export", rows=case["rows"], reset=case["reset"], update=case["update"])]
+        rq = []
+        steps_obs = obs.get("steps") or []
+        for k, step in enumerate(_steps(case)):
+            so = steps_obs[k] if k < len(steps_obs) else {}
+            base = dict(op="export", rows=step["rows"], reset=step["reset"], update=step["update"])
+            mem = so.get("mem") or {}
+            m0 = dict(base, route="mem")
+            if "rows" in mem and all(isinstance(c, (int, str)) for r in mem["rows"] for c in r):
+                m0["out"] = dict(cols=mem["cols"], rows=mem["rows"])
+            rq += [m0, dict(base, route="file"), dict(base, route="conv")]
+            for key in ("file", "conv"):           # the written file read by the PROVED reader (C02 model, Lean starRead)
+                rq.append(dict(op="star", text=_star_text(so.get(key) or {})))
+        return rq
     rq = dict(op="import", table=dict(cols=case["cols"], rows=case["rows"]))
-    good = [o for o in obs.values() if "rows" in o]
-    if good:
+    good = [o for o in _import_routes(obs).values() if "rows" in o and o.get("cols") == MOTL_COLS
+            and all(isinstance(b, int) for r in o["rows"] for b in r)]
+    if good and case.get("text_cell") is None:
         rq["out"] = [[0 if math.isnan(b2f(b)) else b for b in r] for r in good[0]["rows"]]
     return [rq]
 
@@ -557,31 +915,55 @@ def _is_even(x):
     return math.fmod(x, 2.0) == 0.0
 
 
-def _direct_export_mem(case, table):
+def _num(c):
+    return b2f(c) if isinstance(c, int) and not isinstance(c, bool) else None
+
+
+def _show(c):
+    return repr(b2f(c)) if isinstance(c, int) else repr(c)
+
+
+def _err_finding(err, what):
+    """G4: an exception with a cryoCAT frame on its traceback is the library failing on an input of the quantifier (spec);
+    one raised by the harness or a third-party library alone is not evidence about the statement (corr)"""
+    if err.get("where"):
+        return ("spec", "raises", f"{what}: {err['error']} @{err['where']}")
+    return ("corr", "harness-or-library-raised", f"{what}: {err['error']} (no cryoCAT frame on the traceback)")
+
+
+def _direct_export_mem(step, table):
     """the export clauses evaluated directly on the in-memory table (independent of Lean and of the source tables)"""
     bad = []
     cols, rows = table["cols"], table["rows"]
-    N = len(case["rows"])
+    N = len(step["rows"])
+    reset = bool(step["reset"])                       # an omitted reset_index is documented as False
     need = [s for _, s in DOC_PAIRS] + ["halfset", "motl_idx"]
     miss = [c for c in need if c not in cols]
     if miss:
         return [("columns", f"columns missing: {miss}")]
     if len(rows) != N:
         return [("particle-count", f"{len(rows)} rows for {N} particles")]
+    textual = [s for s in need if s != "halfset" and table["kinds"].get(s, "O") not in "fiu"]
+    if textual:
+        return [("fields-copied", f"columns {textual} are not numeric: dtypes {[table['dtypes'].get(s) for s in textual]}")]
+    if table["inexact"]:
+        bad.append(("fields-copied", f"integer columns {table['inexact']} hold values no input float64 can hold"))
     ci = {c: cols.index(c) for c in need}
-    for i, (src, row) in enumerate(zip(case["rows"], rows)):
+    for i, (src, row) in enumerate(zip(step["rows"], rows)):
         for e, s in DOC_PAIRS:
             a, b = src[MOTL_COLS.index(e)], row[ci[s]]
-            if a != b and not (isinstance(b, int) and b2f(a) == b2f(b)):
-                bad.append(("fields-copied", f"particle {i}: column {s} holds {b2f(b) if isinstance(b, int) else b!r}, field {e} is {b2f(a)!r}")); break
+            same = (a == b) if not _col_is_int(step, e) else (_num(b) is not None and b2f(a) == _num(b))
+            if not same:
+                bad.append(("fields-copied", f"particle {i}: column {s} holds {_show(b)}, field {e} is {b2f(a)!r}")); break
         sid = b2f(src[3])
-        want = "A" if _is_even(sid) else "B"
-        if row[ci["halfset"]] != want:
-            bad.append(("halfset-parity", f"particle {i}: subtomo {sid!r} has halfset {row[ci['halfset']]!r}, expected {want}"))
-        widx = float(i + 1) if case["reset"] else sid
-        got = row[ci["motl_idx"]]
-        if not (isinstance(got, int) and b2f(got) == widx):
-            bad.append(("motl_idx", f"particle {i}: motl_idx {b2f(got) if isinstance(got, int) else got!r}, expected {widx!r}"))
+        if sid.is_integer():                          # a non-integral number is neither even nor odd: judged against the model only
+            want = "A" if _is_even(sid) else "B"
+            if row[ci["halfset"]] != want:
+                bad.append(("halfset-parity", f"particle {i}: subtomo {sid!r} has halfset {row[ci['halfset']]!r}, expected {want}"))
+        widx = float(i + 1) if reset else sid
+        got = _num(row[ci["motl_idx"]])
+        if got is None or got != widx:
+            bad.append(("motl_idx", f"particle {i}: motl_idx {_show(row[ci['motl_idx']])}, expected {widx!r}"))
         if bad:
             break
     return bad
@@ -594,11 +976,53 @@ def _tok(t):
         return None
 
 
-def _direct_export_file(case, f, label):
+def _direct_update(step, after, update, label):
+    """the list the object holds after the call, judged against the INPUT list: without update_coord every field unchanged; with it
+    (exact rational arithmetic on the float64 values) the complete position x+shift_x is preserved up to one rounding of the sum, the
+    new coordinate is an integer, the new shift lies in [-1/2, 1/2], an exact half is rounded away from zero, all other fields unchanged"""
+    from fractions import Fraction
+    N = len(step["rows"])
+    if after["cols"] != MOTL_COLS:
+        return [("held-list", f"{label}: the object holds columns {after['cols'][:5]}... instead of the 20 motl columns")]
+    if len(after["rows"]) != N:
+        return [("particle-count", f"{label}: the object holds {len(after['rows'])} particles, {N} were passed")]
+    textual = [c for c in MOTL_COLS if after["kinds"].get(c, "O") not in "fiu"]
+    if textual:
+        return [("held-list", f"{label}: fields {textual} of the held list are not numeric ({[after['dtypes'].get(c) for c in textual]})")]
+    moved = {"x": "shift_x", "y": "shift_y", "z": "shift_z"} if update else {}
+    fixed = [c for c in MOTL_COLS if c not in moved and c not in moved.values()]
+    for i, (src, row) in enumerate(zip(step["rows"], after["rows"])):
+        for c in fixed:
+            k = MOTL_COLS.index(c)
+            a, b = src[k], row[k]
+            same = (a == b) if not _col_is_int(step, c) else b2f(a) == b2f(b)
+            if not same:
+                kind = "held-list" if c in [e for e, _ in DOC_PAIRS] else "held-list-other"
+                return [(kind, f"{label}: particle {i}: field {c} of the held list is {b2f(b)!r}, was passed as {b2f(a)!r}")]
+        for c, sc in moved.items():
+            x, sh = b2f(src[MOTL_COLS.index(c)]), b2f(src[MOTL_COLS.index(sc)])
+            x2, sh2 = b2f(row[MOTL_COLS.index(c)]), b2f(row[MOTL_COLS.index(sc)])
+            if not (math.isfinite(x2) and math.isfinite(sh2)):
+                return [("update-position", f"{label}: particle {i}: {c}={x2!r}, {sc}={sh2!r} after update_coord")]
+            S = Fraction(x) + Fraction(sh)
+            slack = Fraction(math.ulp(x + sh))
+            if not x2.is_integer():
+                return [("update-integral", f"{label}: particle {i}: {c}={x2!r} after update_coord is no integer (was {x!r} + {sh!r})")]
+            if abs(sh2) > 0.5:
+                return [("update-shift-range", f"{label}: particle {i}: {sc}={sh2!r} after update_coord exceeds 1/2 (was {x!r} + {sh!r})")]
+            if abs(Fraction(x2) + Fraction(sh2) - S) > slack:
+                return [("update-position", f"{label}: particle {i}: {c}+{sc} = {x2!r}+{sh2!r} after update_coord, was {x!r}+{sh!r}")]
+            if S.denominator == 2 and Fraction(x2) != S + (Fraction(1, 2) if S > 0 else Fraction(-1, 2)):
+                return [("update-tie", f"{label}: particle {i}: {x!r}+{sh!r} is an exact half, rounded to {x2!r} (not away from zero)")]
+    return []
+
+
+def _direct_export_file(step, f, label):
     """via-file clauses: written file and re-loaded list against the list the object holds after write_out"""
     bad = []
-    after = f["after"]
-    N = len(case["rows"])
+    after = f["after"]["rows"]
+    N = len(step["rows"])
+    reset = bool(step["reset"])
     if SPECIFIER not in f["blocks"] or "cols" not in f:
         return [("file-block", f"{label}: blocks {f['blocks']}")]
     cols, toks = f["cols"], f["tokens"]
@@ -615,116 +1039,196 @@ def _direct_export_file(case, f, label):
             v = _tok(toks[i][ci[s]])
             if v is None or not (abs(v - a[e]) <= tol(a[e])):
                 bad.append(("file-fields", f"{label}: particle {i}: column {s} reads {toks[i][ci[s]]!r}, field {e} is {a[e]!r}")); break
-        want = "A" if _is_even(a["subtomo_id"]) else "B"
-        if toks[i][ci["halfset"]] != want:
-            bad.append(("file-halfset", f"{label}: particle {i}: subtomo {a['subtomo_id']!r} written with halfset {toks[i][ci['halfset']]!r}"))
-        widx = float(i + 1) if case["reset"] else a["subtomo_id"]
+        if a["subtomo_id"].is_integer():
+            want = "A" if _is_even(a["subtomo_id"]) else "B"
+            if toks[i][ci["halfset"]] != want:
+                bad.append(("file-halfset", f"{label}: particle {i}: subtomo {a['subtomo_id']!r} written with halfset {toks[i][ci['halfset']]!r}"))
+        widx = float(i + 1) if reset else a["subtomo_id"]
         v = _tok(toks[i][ci["motl_idx"]])
         if v is None or not (abs(v - widx) <= tol(widx)):
             bad.append(("file-motl_idx", f"{label}: particle {i}: motl_idx written {toks[i][ci['motl_idx']]!r}, expected {widx!r}"))
         if bad:
             return bad
-    textual = [e for e, _ in DOC_PAIRS if e in f.get("loaded_text_cols", [])]
+    if "load_error" in f:
+        k, cl, det = _err_finding(f["load_error"], f"{label}: StopgapMotl(path) on the file just written")
+        return [(cl if k == "spec" else "corr:" + cl, det)]
+    L = f["loaded"]
+    textual = [e for e, _ in DOC_PAIRS if L["kinds"].get(e, "O") not in "fiu"]
     if textual:
-        return [("reload-fields", f"{label}: fields {textual} come back from the file as text, not numbers")]
-    if f["loaded_cols"] != MOTL_COLS or len(f["loaded"]) != N:
-        return [("reload-shape", f"{label}: reloaded {len(f['loaded'])} particles, columns {f['loaded_cols'][:4]}...")]
+        return [("reload-fields", f"{label}: fields {textual} come back from the file as text, not numbers (dtypes {[L['dtypes'].get(e) for e in textual]})")]
+    if L["cols"] != MOTL_COLS or len(L["rows"]) != N:
+        return [("reload-shape", f"{label}: reloaded {len(L['rows'])} particles for {N} written, columns {L['cols'][:4]}...")]
     for i in range(N):
         for e, _ in DOC_PAIRS:
             k = MOTL_COLS.index(e)
-            a, l = b2f(after[i][k]), b2f(f["loaded"][i][k])
-            if not (abs(l - a) <= tol(a)):
-                return [("reload-fields", f"{label}: particle {i}: field {e} reloaded as {l!r}, was {a!r}")]
+            a, l = b2f(after[i][k]), _num(L["rows"][i][k])
+            if l is None or not (abs(l - a) <= tol(a)):
+                return [("reload-fields", f"{label}: particle {i}: field {e} reloaded as {_show(L['rows'][i][k])}, was {a!r}")]
     return bad
 
 
-def _max_dev(case, obs):
+def _max_dev(obs):
     """largest |reloaded - held| / tol over the 14 shared fields (<= 1 means within STAR precision)"""
     d = 0.0
-    for key in ("file", "conv"):
-        f = obs.get(key) or {}
-        if "loaded" in f and "after" in f and len(f["loaded"]) == len(f["after"]):
-            for ra, rl in zip(f["after"], f["loaded"]):
-                for e, _ in DOC_PAIRS:
-                    k = MOTL_COLS.index(e)
-                    a = b2f(ra[k])
-                    x = abs(a - b2f(rl[k])) / tol(a)
-                    if x == x:
-                        d = max(d, x)
+    for so in obs.get("steps", []):
+        for key in ("file", "conv"):
+            f = so.get(key) or {}
+            if "loaded" in f and "after" in f and len(f["loaded"]["rows"]) == len(f["after"]["rows"]) and f["loaded"]["cols"] == MOTL_COLS == f["after"]["cols"]:
+                for ra, rl in zip(f["after"]["rows"], f["loaded"]["rows"]):
+                    for e, _ in DOC_PAIRS:
+                        k = MOTL_COLS.index(e)
+                        if isinstance(ra[k], int) and isinstance(rl[k], int):
+                            a = b2f(ra[k])
+                            x = abs(a - b2f(rl[k])) / tol(a)
+                            if x == x:
+                                d = max(d, x)
     return d
+
+
+def _expected_mem_dtypes(step):
+    reset = bool(step["reset"])
+    exp = {s: ("int64" if _col_is_int(step, e) else "float64") for e, s in DOC_PAIRS}
+    exp["motl_idx"] = "int64" if reset else exp["subtomo_num"]
+    return exp
+
+
+def _judge_export_step(step, so, resps, tag, F):
+    m0, m1, m2, s1, s2 = resps
+    nonint = any(not b2f(r[3]).is_integer() for r in step["rows"])
+    for r in (m0, m1, m2):
+        if "error" in r:
+            F("corr", "model-rejects", f"{tag}{r.get('error')}")
+            return
+    for label in so.get("mutated", []):
+        F("spec", "input-mutated", f"{tag}{label} changed the caller's DataFrame (values, dtypes, columns or index) in place")
+    want = dict(reset=bool(step["reset"]), update=bool(step["update"]))
+    for r, route in ((m0, "mem"), (m1, "file"), (m2, "conv")):
+        eff = dict(r["eff"], update=False if route == "mem" else r["eff"]["update"])
+        if eff != dict(want, update=False if route == "mem" else want["update"]):
+            F("corr", "defaults-vs-model", f"{tag}{route}: keywords {step['reset']!r}/{step['update']!r} mean {want} by the documented defaults, the model (source defaults) uses {r['eff']}")
+        if not r.get("decode_agrees", True):
+            F("corr", "decode-vs-float", f"{tag}{route}: exact integer decoding of a subtomogram number disagrees with the hardware float (or float mod 2 with integer parity)")
+    # ---- in memory: Lean verified checker + direct evaluation + model equality
+    mem = so["mem"]
+    if "error" in mem:
+        F(*_err_finding(mem, f"{tag}convert_to_sg_motl"))
+    else:
+        direct = _direct_export_mem(step, mem)
+        chk = m0.get("out")
+        names = {"cols": "columns", "fields": "fields-copied", "halfset": "halfset-parity", "motl_idx": "motl_idx"}
+        lean_bad = ["columns"] if chk is None else [names[k] for k in ("cols", "fields", "halfset", "motl_idx") if not chk[k]]
+        for cl, det in direct:
+            F("spec", cl, f"{tag}in memory: " + det)
+        for cl in lean_bad:
+            if not any(c == cl or c in ("columns", "particle-count") for c, _ in direct):
+                # the proved checker rejects, the direct evaluation did not see it (e.g. only column order differs, or the number is no integer)
+                soft = cl == "columns" or (cl == "halfset-parity" and nonint)
+                F("corr" if soft else "spec", cl + "(lean-checker)", f"{tag}in memory: verified checker rejects clause {cl}; cols={mem['cols']}")
+        if direct and not lean_bad:
+            F("corr", "checker-vs-direct", f"{tag}direct evaluation fails {direct[0]} but the verified checker accepts")
+        if not direct and not lean_bad:
+            if mem["cols"] != m0["table"]["cols"] or mem["rows"] != m0["table"]["rows"]:
+                F("corr", "mem-vs-model", f"{tag}convert_to_sg_motl output differs from the model table outside the property's clauses")
+            exp = _expected_mem_dtypes(step)
+            odd = {c: mem["dtypes"].get(c) for c in exp if mem["dtypes"].get(c) != exp[c]}
+            if odd:
+                F("corr", "dtype-vs-expected", f"{tag}in memory: column dtypes {odd}, expected {[exp[c] for c in odd]}")
+    # ---- via file (twice: StopgapMotl.write_out and emmotl2stopgap)
+    for key, mr, sr in (("file", m1, s1), ("conv", m2, s2)):
+        f = so[key]
+        if "error" in f:
+            F(*_err_finding(f, f"{tag}{key}")); continue
+        # the proved reader against the harness tokenizer and the column typing (both only read the file the library wrote)
+        if _star_text(f) and "cols" in f:
+            if "error" in sr:
+                if all(c in DOC_COLUMNS for c in f["cols"]) and f["tokens"]:
+                    F("corr", "lean-reader-rejects", f"{tag}{key}: the proved STAR reader rejects the written file: {sr['error']}")
+            elif sr["cols"] != f["cols"] or [[c[1] for c in r] for r in sr["rows"]] != f["tokens"]:
+                F("corr", "lean-reader-vs-tokenizer", f"{tag}{key}: the proved STAR reader and the harness tokenizer read different tables from the written file")
+            else:
+                texty = sorted({c for r in sr["rows"] for c, cell in zip(sr["cols"], r) if cell[0] == "s"})
+                if texty != ["halfset"]:
+                    F("corr", "lean-reader-column-typing", f"{tag}{key}: the proved STAR reader types columns {texty} as text (expected exactly halfset)")
+        bad = _direct_update(step, f["after"], want["update"], f"{tag}{key}")
+        if not bad:
+            bad = _direct_export_file(step, f, f"{tag}{key}")
+        for cl, det in bad:
+            if cl.startswith("corr:"):
+                F("corr", cl[5:], det)
+            elif cl == "held-list-other":
+                F("corr", cl, det)
+            else:
+                F("spec", cl, det)
+        if bad:
+            continue
+        if f["after"]["rows"] != mr["updated"]:
+            i = next((i for i, (a, b) in enumerate(zip(f["after"]["rows"], mr["updated"])) if a != b), -1)
+            F("corr", "list-after-write-vs-model", f"{tag}{key}: particle list held after the call (update_coord={step['update']}) differs from the model at particle {i}")
+            continue
+        mt = mr["table"]
+        if f["cols"] != mt["cols"]:
+            F("corr", "file-header-vs-model", f"{tag}{key}: header {f['cols']}")
+            continue
+        stop = False
+        for i, (tr, mrow) in enumerate(zip(f["tokens"], mt["rows"])):
+            for c, t, mc in zip(mt["cols"], tr, mrow):
+                okc = (t == mc) if isinstance(mc, str) else (_tok(t) is not None and abs(_tok(t) - b2f(mc)) <= tol(b2f(mc)))
+                if not okc:
+                    F("corr", "file-vs-model", f"{tag}{key}: row {i} column {c}: token {t!r}, model {mc if isinstance(mc, str) else b2f(mc)!r}")
+                    stop = True
+                    break
+            if stop:
+                break
 
 
 def judge(case, obs, resps):
     out = []
     F = lambda kind, clause, detail: out.append(dict(kind=kind, clause=clause, detail=detail))
-    if "error" in obs:
-        F("spec", "raises", obs["error"] + " @" + obs.get("where", ""))
+    if "error" in obs:      # raised outside the guarded calls (harness code) or reported by the framework
+        F(*_err_finding(obs, "run_impl"))
         return out
     if case["kind"] == "export":
-        m0, m1 = resps
-        if "error" in m0 or "error" in m1:
-            F("corr", "model-rejects", f"{m0.get('error')} {m1.get('error')}")
+        steps = _steps(case)
+        if len(obs["steps"]) != len(steps) or len(resps) != 5 * len(steps):
+            F("corr", "harness-or-library-raised", f"{len(obs['steps'])} observed steps, {len(resps)} model answers for {len(steps)} steps")
             return out
-        # ---- in memory: Lean verified checker + direct evaluation + model equality
-        direct = _direct_export_mem(case, obs["mem"])
-        chk = m0.get("out")
-        names = {"cols": "columns", "fields": "fields-copied", "halfset": "halfset-parity", "motl_idx": "motl_idx"}
-        if chk is None:
-            lean_bad = ["columns"]
-        else:
-            lean_bad = [names[k] for k in ("cols", "fields", "halfset", "motl_idx") if not chk[k]]
-        for cl, det in direct:
-            F("spec", cl, "in memory: " + det)
-        for cl in lean_bad:
-            if not any(c == cl or c in ("columns", "particle-count") for c, _ in direct):
-                # the proved checker rejects, the direct evaluation did not see it (e.g. only column order differs)
-                F("spec" if cl != "columns" else "corr", cl + "(lean-checker)", f"in memory: verified checker rejects clause {cl}; cols={obs['mem']['cols']}")
-        if direct and not lean_bad:
-            F("corr", "checker-vs-direct", f"direct evaluation fails {direct[0]} but the verified checker accepts")
-        if not direct and not lean_bad and (obs["mem"]["cols"] != m0["table"]["cols"] or obs["mem"]["rows"] != m0["table"]["rows"]):
-            F("corr", "mem-vs-model", "convert_to_sg_motl output differs from the model table outside the property's clauses")
-        # ---- via file (twice: StopgapMotl.write_out and emmotl2stopgap)
-        for key in ("file", "conv"):
-            f = obs[key]
-            bad = _direct_export_file(case, f, key)
-            for cl, det in bad:
-                F("spec", cl, det)
-            if f["after"] != m1["updated"]:
-                i = next((i for i, (a, b) in enumerate(zip(f["after"], m1["updated"])) if a != b), -1)
-                F("corr", "list-after-write-vs-model", f"{key}: particle list held after write_out(update_coord={case['update']}) differs from the model at particle {i}")
-            elif not bad:
-                mt = m1["table"]
-                if f["cols"] != mt["cols"]:
-                    F("corr", "file-header-vs-model", f"{key}: header {f['cols']}")
-                else:
-                    for i, (tr, mr) in enumerate(zip(f["tokens"], mt["rows"])):
-                        for c, t, mc in zip(mt["cols"], tr, mr):
-                            okc = (t == mc) if isinstance(mc, str) else (_tok(t) is not None and abs(_tok(t) - b2f(mc)) <= tol(b2f(mc)))
-                            if not okc:
-                                F("corr", "file-vs-model", f"{key}: row {i} column {c}: token {t!r}, model {mc if isinstance(mc, str) else b2f(mc)!r}")
-                                break
-                        if out and out[-1]["clause"] == "file-vs-model":
-                            break
+        for k, step in enumerate(steps):
+            tag = "" if len(steps) == 1 else (f"step {k + 1} of 2 (same paths" + (", caller's frame edited in place" if step.get("mode") == "mutate" else "") + "): ")
+            _judge_export_step(step, obs["steps"][k], resps[5 * k:5 * k + 5], tag, F)
         return out
     # ---- import
     model = resps[0]
-    for name, o in obs.items():
+    routes = _import_routes(obs)
+    text_cell = case.get("text_cell")
+    for name in obs.get("mutated", []):
+        F("spec", "input-mutated", f"{name} changed the caller's STOPGAP DataFrame in place")
+    if text_cell is not None:
+        # outside the quantifier (a text cell in a numeric column): the model must reject it, nothing is demanded of the library
+        if model.get("error") != "reject:text-in-numeric-column":
+            F("corr", "model-accepts-text-cell", str(model)[:200])
+        return out
+    for name, o in routes.items():
         if case.get("missing") is not None:
             if "reject" not in o:
                 F("corr", "import-accepts-missing-column", f"{name}: column {case['missing']} missing but accepted")
             continue
         if "reject" in o:
             F("spec", "import-raises", f"{name}: KeyError {o['detail']}"); continue
+        if "error" in o:
+            F(*_err_finding(o, name)); continue
         N = len(case["rows"])
         if o["cols"] != MOTL_COLS or len(o["rows"]) != N:
             F("spec", "particle-count", f"{name}: {len(o['rows'])} particles for {N} rows, columns {o['cols'][:4]}..."); continue
+        textual = [e for e, _ in DOC_PAIRS if o["kinds"].get(e, "O") not in "fiu"]
+        if textual:
+            F("spec", "import-fields-copied", f"{name}: fields {textual} are not numeric after the import (dtypes {[o['dtypes'].get(e) for e in textual]})"); continue
         ci = {c: case["cols"].index(c) for _, c in DOC_PAIRS}
         done = False
         for i in range(N):
             for e, s in DOC_PAIRS:
                 a, b = case["rows"][i][ci[s]], o["rows"][i][MOTL_COLS.index(e)]
                 if a != b:
-                    F("spec", "import-fields-copied", f"{name}: particle {i}: field {e} is {b2f(b)!r}, column {s} holds {b2f(a)!r}"); done = True; break
+                    F("spec", "import-fields-copied", f"{name}: particle {i}: field {e} is {_show(b)}, column {s} holds {b2f(a)!r}"); done = True; break
             if done:
                 break
     if case.get("missing") is not None:
@@ -735,17 +1239,25 @@ def judge(case, obs, resps):
         F("corr", "model-rejects", str(model)); return out
     if "check" in model and model["check"] is not True and not any(f["kind"] == "spec" for f in out):
         F("spec", "import-fields-copied(lean-checker)", "verified checker rejects the imported list")
-    if model.get("check") is True and any(f["clause"] == "import-fields-copied" for f in out) and len({str(o.get("rows")) for o in obs.values()}) == 1:
+    if model.get("check") is True and any(f["clause"] == "import-fields-copied" for f in out) and len({str(o.get("rows")) for o in routes.values()}) == 1:
         F("corr", "checker-vs-direct", "direct evaluation fails but the verified checker accepts the imported list")
-    for name, o in obs.items():
+    for name, o in routes.items():
         if "rows" in o and not any(f["kind"] == "spec" for f in out):
             shared = {MOTL_COLS.index(e) for e, _ in DOC_PAIRS}
             # the six fields STOPGAP does not have: NaN after StopgapMotl(...), 0.0 after EmMotl(...) (fillna) -- not part of the property
-            canon = lambda rows: [[(b if k in shared else ("fill" if (math.isnan(b2f(b)) or b2f(b) == 0.0) else b)) for k, b in enumerate(r)] for r in rows]
+            canon = lambda rows: [[(b if k in shared else ("fill" if (not isinstance(b, int) or math.isnan(b2f(b)) or b2f(b) == 0.0) else b)) for k, b in enumerate(r)] for r in rows]
             if canon(o["rows"]) != canon(model["motl"]):
                 F("corr", "import-vs-model", f"{name}: imported list differs from the model")
+            exp = {e: ("int64" if case["int_ids"] and s in ("subtomo_num", "tomo_num", "object", "class") and
+                       all(b2f(r[case["cols"].index(s)]).is_integer() for r in case["rows"]) else "float64") for e, s in DOC_PAIRS}
+            odd = {e: o["dtypes"].get(e) for e in exp if o["dtypes"].get(e) != exp[e]}
+            if odd:
+                F("corr", "dtype-vs-expected", f"{name}: field dtypes {odd}, expected {[exp[e] for e in odd]}")
     return out
 
+
+def classify(case, obs, finding):
+    return None
 
 
 def nontrivial(case, obs):
@@ -753,7 +1265,7 @@ def nontrivial(case, obs):
     if n < 2 or "error" in obs:
         return False
     if case["kind"] == "import":
-        return case["cols"] != DOC_COLUMNS and case.get("missing") is None
+        return case["cols"] != DOC_COLUMNS and case.get("missing") is None and case.get("text_cell") is None
     ids = [b2f(r[3]) for r in case["rows"]]
     par = {_is_even(x) for x in ids}
     shared = [MOTL_COLS.index(e) for e, _ in DOC_PAIRS]
@@ -761,35 +1273,56 @@ def nontrivial(case, obs):
     return len(par) == 2 and ids != [float(i + 1) for i in range(n)] and rich
 
 
+def _id_kind(ids):
+    if any(not x.is_integer() for x in ids):
+        return "non-integral"
+    if any(abs(x) >= 2.0 ** 53 for x in ids):
+        return "beyond-2^53"
+    if any(x < 0 for x in ids):
+        return "negative"
+    return "non-negative-int"
+
+
 def stats(case, obs, resps):
     n = len(case["rows"])
     s = {"kind": case["kind"], "N": "1" if n == 1 else ("2-10" if n <= 10 else ("11-40" if n <= 40 else "41-300"))}
+    opt = lambda v: "omitted" if v is None else str(bool(v))
     if case["kind"] == "export":
         ids = [b2f(r[3]) for r in case["rows"]]
-        s.update({"reset": case["reset"], "update": case["update"], "index": case["index"], "id_dtype": "int64" if case["int_ids"] else "float64",
+        sec = case.get("second")
+        s.update({"reset": opt(case["reset"]), "update": opt(case["update"]), "index": case["index"], "id_dtype": "int64" if case["int_ids"] else "float64",
                   "col_order": "canonical" if case["cols"] == MOTL_COLS else "shuffled",
                   "parity": "both" if len({_is_even(x) for x in ids}) == 2 else ("all-even" if _is_even(ids[0]) else "all-odd"),
-                  "ids": "sequential" if ids == [float(i + 1) for i in range(n)] else "non-sequential"})
+                  "ids": "sequential" if ids == [float(i + 1) for i in range(n)] else "non-sequential", "id_values": _id_kind(ids),
+                  "second_step": "none" if not sec else (sec["mode"] + ("/same-count" if len(sec["rows"]) == n else "/other-count"))})
+        if sec:
+            s["second_reset"], s["second_update"] = opt(sec["reset"]), opt(sec["update"])
         if "error" not in obs:
-            d = _max_dev(case, obs)
+            d = _max_dev(obs)
             s["max_reload_deviation_over_tol"] = "0" if d == 0 else ("<=0.01" if d <= 0.01 else ("<=0.5" if d <= 0.5 else ("<=1" if d <= 1 else ">1")))
-            s["motl_idx_dtype"] = obs["mem"]["dtypes"].get("motl_idx", "?")
-            if case["update"] and resps and "updated" in resps[-1]:
-                moved = sum(1 for a, b in zip(case["rows"], resps[-1]["updated"]) if a != b)
+            mem = obs["steps"][0].get("mem", {})
+            s["motl_idx_dtype"] = mem.get("dtypes", {}).get("motl_idx", "?")
+            s["halfset_dtype"] = mem.get("dtypes", {}).get("halfset", "?")
+            if resps and len(resps) >= 2 and "updated" in resps[1] and resps[1].get("eff", {}).get("update"):
+                moved = sum(1 for a, b in zip(case["rows"], resps[1]["updated"]) if a != b)
                 s["update_moved"] = "some" if moved else "none"
     else:
+        routes = _import_routes(obs)
         s.update({"col_order": "documented" if case["cols"] == DOC_COLUMNS else "permuted", "extra_col": bool(case.get("extra")),
-                  "missing_col": case.get("missing") or "none",
-                  "outcome": ",".join(sorted({("reject" if "reject" in o else "ok") for o in obs.values()})) if "error" not in obs else "error"})
+                  "missing_col": case.get("missing") or "none", "index": case.get("index", "range"), "text_cell": case.get("text_cell") is not None,
+                  "outcome": ",".join(sorted({("reject" if "reject" in o else ("error" if "error" in o else "ok")) for o in routes.values()})) if "error" not in obs else "error"})
     return s
 
 
 def sample_view(case):
-    v = {k: case[k] for k in case if k not in ("rows", "labels")}
+    v = {k: case[k] for k in case if k not in ("rows", "labels", "second")}
     v["n_rows"] = len(case["rows"])
     v["first_row"] = [c if isinstance(c, str) else b2f(c) for c in case["rows"][0]]
     if "labels" in case:
         v["labels"] = case["labels"][:8]
+    if case.get("second"):
+        sec = case["second"]
+        v["second"] = dict({k: sec[k] for k in sec if k not in ("rows", "labels", "cols")}, n_rows=len(sec["rows"]))
     return v
 
 
@@ -820,11 +1353,16 @@ def probes(rng):
 LEVEL_TEXT = ("Lean 4 theorems about an executable model of StopgapMotl.convert_to_sg_motl / sg_df_reset_index / convert_to_motl / write_out "
               "(+ Motl.update_coordinates), for every particle list of any length and arbitrary cell values: pairs_documented, pairs_bijective, "
               "export_rows (14 fields unchanged under the documented renaming, same order; halfset by parity; motl_idx = subtomogram number or 1..N), "
-              "halfset_even_odd (over Int), motl_idx_spec, model_spec, check_sound/check_complete (verified checker run on the real output), import_rows "
-              "(any column order), fromSg_toSg, toSg_fromSg, export_update_coord, via_file (corollary of an abstract STAR round-trip hypothesis). "
-              "Tied to the source by regenerated tables (pairs, columns, the halfset expression literals, motl_idx source, reset range, block name, "
-              "STAR precision, by-position assignment) and by an exact differential run of the real code (in memory; via file to 5e-7) against the model")
-LEVEL_NOTE = ("via_file assumes the STAR layer round trip (C02) as a hypothesis; file comparisons use tolerance 5e-7+16ulp; trusted: Lean kernel, "
-              "translator AST extraction, harness STAR tokenizer, pandas positional/label assignment semantics, Decimal ROUND_HALF_UP = Float.round (probed)")
-TECHNIQUE = "Lean 4 proof (fold invariants over an arbitrary injective renaming table, list induction) + regenerated tables + verified checker + differential correspondence"
+              "halfset_even_odd (over Int), halfset_even_odd_bits / check_parity_sound (on exactly decoded IEEE bit patterns, any sign and magnitude), "
+              "motl_idx_spec, omitted_keywords + defaults_documented (an omitted reset_index / update_coord means False), model_spec, check_sound/check_complete "
+              "(verified checker run on the real output), import_rows (any column order; a text cell or ragged table is rejected, never read as a fill value), "
+              "fromSg_toSg, toSg_fromSg, export_update_coord, via_file and via_file_c02 (the file round trip PROVED from C02's typed_roundtrip for the C02 model "
+              "of Starfile.write/read: star_layer_roundtrip discharges the former abstract hypothesis; only value<->digits conversion stays a parameter). "
+              "Tied to the source by regenerated tables (pairs, columns, the halfset expression literals, statement order, motl_idx source, reset range, block "
+              "name, STAR precision, by-position assignment, eight signature defaults, digests of the normalised bodies of the eight entry points) and by an "
+              "exact differential run of the real code (in memory; via file to 5e-7) against the model, incl. two-step histories on the same paths / frame")
+LEVEL_NOTE = ("via_file_c02 is proved relative to the C02 model of the STAR layer; the numeric conversion value -> digits -> value (round(6), repr, to_numeric) is "
+              "validated, not proved (file comparisons at tolerance 5e-7+16ulp); trusted: Lean kernel, translator AST extraction, harness STAR tokenizer, exact "
+              "bit decoding (cross-checked at run time), pandas positional/label assignment semantics, Decimal ROUND_HALF_UP = Float.round (probed)")
+TECHNIQUE = "Lean 4 proof (fold invariants over an arbitrary injective renaming table, list induction, bridge to the C02 STAR model) + regenerated tables + verified checker + differential correspondence with cross-call histories"
 DESIGN_REF = "DESIGN.md section 4, C04"
